@@ -8,6 +8,8 @@ cancel() and completion with the coroutine's qualified name."""
 from __future__ import annotations
 
 import asyncio
+import heapq
+import itertools
 import selectors
 from typing import Any, Callable
 
@@ -76,6 +78,32 @@ class VTask(asyncio.Task):
         return super().cancel(msg)
 
 
+class _SeqTimerHandle(asyncio.TimerHandle):
+    """Timers due at the same virtual instant fire in the order they were set.  (With a real clock two timers set one after
+    the other never have the same deadline and fire in that order; asyncio's heap leaves the order of exact ties to chance.)"""
+    __slots__ = ("_seq",)
+    _counter = itertools.count()
+
+    def __init__(self, *a, **k) -> None:
+        super().__init__(*a, **k)
+        self._seq = next(_SeqTimerHandle._counter)
+
+    def _key(self):
+        return (self._when, self._seq)
+
+    def __lt__(self, o):
+        return self._key() < o._key()
+
+    def __le__(self, o):
+        return self._key() <= o._key()
+
+    def __gt__(self, o):
+        return self._key() > o._key()
+
+    def __ge__(self, o):
+        return self._key() >= o._key()
+
+
 class VirtualLoop(asyncio.SelectorEventLoop):
     def __init__(self, record_tasks: bool = False) -> None:
         self.vtime = 0.0
@@ -92,6 +120,13 @@ class VirtualLoop(asyncio.SelectorEventLoop):
 
     def time(self) -> float:
         return self.vtime
+
+    def call_at(self, when, callback, *args, context=None):
+        self._check_closed()
+        timer = _SeqTimerHandle(when, callback, args, self, context)
+        heapq.heappush(self._scheduled, timer)
+        timer._scheduled = True
+        return timer
 
     def _run_once(self) -> None:
         self.iteration += 1
